@@ -312,10 +312,11 @@ Definition spec_valid (S : schema) (w op res : N) (fld rol : list N) : bool :=
      else if op =? acl_op_execute then tfun t else false)
   end.
 
-Definition spec_published (S : schema) (sysr w role : N) : list pub_entry :=
+(* `srules t` = the rule list the oracle judges resource t by (see `spec_rules`) *)
+Definition spec_published (S : schema) (srules : typ -> list rule) (sysr w role : N) : list pub_entry :=
   let roles := spec_roles S w [role] in
-  let rules := all_rules S w in
   flat_map (fun t =>
+    let rules := srules t in
     if tpub t then
       let ops := flat_map (fun o =>
         if spec_type_allowed sysr o t roles rules
@@ -326,11 +327,61 @@ Definition spec_published (S : schema) (sysr w role : N) : list pub_entry :=
       if is_nil ops then [] else [(tname t, ops)]
     else []) (vis_types S w).
 
+(* ================= declared rules =================
+   What the generator passed to the builder, in the order it passed it (rules the builder refused
+   are not declared).  The model and the oracle work from this list, never from what the built
+   application reports as its ACL; the reported ACL is an observable of its own. *)
+Record drule := mkD {
+  dws : N;
+  dblk : N;     (* the WORKSPACE / ALTER WORKSPACE block of a VSQL source the rule is written in; rules
+                   passed to the builder API one by one have a block each *)
+  dall : bool;  (* GRANT ALL / REVOKE ALL: no operation list *)
+  drl : rule }.
+
+(* the VSQL compiler (grantsAndRevokes): per block all GRANTs, then all REVOKEs - when the translator
+   finds that shape in the source; the oracle always reads the textual order *)
+Fixpoint span_blk (b : N) (l : list drule) : list drule * list drule :=
+  match l with
+  | d :: r => if dblk d =? b then (d :: fst (span_blk b r), snd (span_blk b r)) else ([], l)
+  | [] => ([], [])
+  end.
+Fixpoint reorder (fuel : nat) (l : list drule) : list drule :=
+  match fuel, l with
+  | Datatypes.S f, d :: _ =>
+    let run := fst (span_blk (dblk d) l) in
+    filter (fun x => rallow (drl x)) run ++ filter (fun x => negb (rallow (drl x))) run ++ reorder f (snd (span_blk (dblk d) l))
+  | _, _ => []
+  end.
+Definition compiled_order (l : list drule) : list drule := if parser_acl_grants_first then reorder (length l) l else l.
+
+(* NewRuleAll: the operations of the first type, in name order, among the types the workspace sees
+   that the filter matches *)
+Definition eff_rule (S : schema) (d : drule) : rule :=
+  if dall d
+  then mkRule (match find (fmatch (rflt (drl d))) (vis_types S (dws d)) with Some t => taclops t | None => [] end)
+              (rallow (drl d)) (rflt (drl d)) (rfields (drl d)) (rprin (drl d))
+  else drl d.
+(* the schema the code decides by: every workspace holds its declared rules in declaration order *)
+Definition install (S : schema) (decl : list drule) : schema :=
+  mkSchema (stypes S)
+    (map (fun w => mkWs (wname w) (wanc w) (map (eff_rule S) (filter (fun d => dws d =? wname w) decl))) (swss S)).
+(* the oracle reads ALL as "every operation applicable to the resource asked about" *)
+Definition spec_rules (S : schema) (decl : list drule) (w : N) (t : typ) : list rule :=
+  flat_map (fun w' => map (fun d => if dall d
+                                    then mkRule (taclops t) (rallow (drl d)) (rflt (drl d)) (rfields (drl d)) (rprin (drl d))
+                                    else drl d)
+                          (filter (fun d => dws d =? w') decl)) (ws_order S w).
+
 (* ================= traces ================= *)
 Record query := mkQ { qws : N; qop : N; qres : N; qflds : list N; qroles : list N; qout : outcome }.
 Record rraobs := mkRRA { aws : N; arole : N; aout : list N }.
 Record pubobs := mkPub { pws : N; prole : N; pout : list pub_entry }.
-Record trace := mkTrace { tr_schema : schema; tr_sys : N; tr_queries : list query; tr_rra : list rraobs; tr_pub : list pubobs }.
+Record trace := mkTrace {
+  tr_schema : schema;                 (* types and workspaces as built; the rule lists are left empty *)
+  tr_decl : list drule;               (* declared rules, application-wide declaration order *)
+  tr_rb : list (N * list rule);       (* observed: IWorkspace.ACL() of every workspace *)
+  tr_rbapp : list rule;               (* observed: IAppDef.ACL() *)
+  tr_sys : N; tr_queries : list query; tr_rra : list rraobs; tr_pub : list pubobs }.
 
 Definition outcome_eqb (a b : outcome) : bool :=
   match a, b with
@@ -343,31 +394,51 @@ Definition pub_eqb : list pub_entry -> list pub_entry -> bool :=
   list_eqb (fun a b => (fst a =? fst b) &&
     list_eqb (fun x y => (fst x =? fst y) && option_eqb lN_eqb (snd x) (snd y)) (snd a) (snd b)).
 
+Definition lset_eqb (a b : list N) : bool := forallb (fun x => mem x b) a && forallb (fun x => mem x a) b.
+Fixpoint filt_eqb (a b : filt) : bool :=
+  match a, b with
+  | FTrue, FTrue => true
+  | FQNames x, FQNames y | FTags x, FTags y | FTypes x, FTypes y => lset_eqb x y
+  | FWSTypes w x, FWSTypes v y => (w =? v) && lset_eqb x y
+  | FAnd a1 a2, FAnd b1 b2 | FOr a1 a2, FOr b1 b2 => filt_eqb a1 b1 && filt_eqb a2 b2
+  | FNot x, FNot y => filt_eqb x y
+  | _, _ => false
+  end.
+Definition rule_eqb (a b : rule) : bool :=
+  lset_eqb (rops a) (rops b) && Bool.eqb (rallow a) (rallow b) && filt_eqb (rflt a) (rflt b)
+  && lN_eqb (rfields a) (rfields b) && (rprin a =? rprin b).
+
 Definition agrees (t : trace) : bool :=
-  let S := tr_schema t in
-  forallb (fun q => outcome_eqb (is_allowed S (tr_sys t) (qws q) (qop q) (qres q) (qflds q) (qroles q)) (qout q)) (tr_queries t)
+  let S := install (tr_schema t) (compiled_order (tr_decl t)) in
+  (* the built application reports exactly the declared rules, in declaration order *)
+  forallb (fun w => list_eqb rule_eqb (wacl w)
+                      (match find (fun p => fst p =? wname w) (tr_rb t) with Some p => snd p | None => [] end)) (swss S)
+  && list_eqb rule_eqb (map (eff_rule (tr_schema t)) (compiled_order (tr_decl t))) (tr_rbapp t)
+  && forallb (fun q => outcome_eqb (is_allowed S (tr_sys t) (qws q) (qop q) (qres q) (qflds q) (qroles q)) (qout q)) (tr_queries t)
   && forallb (fun a => option_eqb lN_eqb (rra_any acl_rra_closure S (arole a) (aws a)) (Some (aout a))) (tr_rra t)
   && forallb (fun p => option_eqb pub_eqb (published S (tr_sys t) (pws p) (prole p)) (Some (pout p))) (tr_pub t).
 
 (* the property judged on the observed outputs: a well-formed request gets exactly the decision the
-   declared grants/revokes prescribe for the inheritance closure of the supplied roles; a malformed
-   one gets an error; role ancestors are the inheritance closure; the published list is the set of
-   (type, op, fields) the semantics allows.  Requests for ACTIVATE/DEACTIVATE naming a field the
-   type does not have are outside the domain (the code does not validate them). *)
-Definition sat_query (S : schema) (sysr : N) (q : query) : bool :=
+   declared grants/revokes (in declaration order, ancestors first) prescribe for the inheritance
+   closure of the supplied roles; a malformed one gets an error; role ancestors are the
+   inheritance closure; the published list is the set of (type, op, fields) the semantics allows.
+   Requests for ACTIVATE/DEACTIVATE naming a field the type does not have are outside the domain
+   (the code does not validate them).  `srules w t` = the oracle's rule list. *)
+Definition sat_query (S : schema) (srules : N -> typ -> list rule) (sysr : N) (q : query) : bool :=
   if spec_valid S (qws q) (qop q) (qres q) (qflds q) (qroles q) then
     match find_type S (qws q) (qres q) with
     | Some t =>
       if match tflds t with Some fs => forallb (fun f => mem f fs) (qflds q) | None => true end
       then outcome_eqb (qout q)
-             (if spec_decide sysr (qop q) t (qflds q) (spec_roles S (qws q) (qroles q)) (all_rules S (qws q)) then OAllow else ODeny)
+             (if spec_decide sysr (qop q) t (qflds q) (spec_roles S (qws q) (qroles q)) (srules (qws q) t) then OAllow else ODeny)
       else match qout q with OAllow | ODeny => true | _ => false end
     | None => false
     end
   else match qout q with OErr _ => true | _ => false end.
 
 Definition satisfies (t : trace) : bool :=
-  let S := tr_schema t in
-  forallb (sat_query S (tr_sys t)) (tr_queries t)
+  let S := install (tr_schema t) (tr_decl t) in
+  let srules := spec_rules (tr_schema t) (tr_decl t) in
+  forallb (sat_query S srules (tr_sys t)) (tr_queries t)
   && forallb (fun a => lN_eqb (aout a) (spec_roles S (aws a) [arole a])) (tr_rra t)
-  && forallb (fun p => pub_eqb (pout p) (spec_published S (tr_sys t) (pws p) (prole p))) (tr_pub t).
+  && forallb (fun p => pub_eqb (pout p) (spec_published S (srules (pws p)) (tr_sys t) (pws p) (prole p))) (tr_pub t).
